@@ -480,7 +480,8 @@ def retxCands (cfg : Cfg) (k : Kernel) : List Nat :=
   k.sockets.filterMap fun e =>
     match e.2.tcb with
     | some t =>
-      if t.retxCandidate || (cfg.fixOrphanTimeout && e.2.fdClosed && t.state != .closed) then some e.1 else none
+      if t.retxCandidate || (cfg.fixOrphanTimeout && e.2.fdClosed && t.state != .closed) ||
+          (cfg.fixFinWait2Timeout && e.2.fdClosed && t.state == .finWait2) then some e.1 else none
     | none => none
 
 /-- First loop of `check_retx`: counters / rewind per candidate, collecting the fds whose handshake
